@@ -1073,7 +1073,12 @@ class OrbitBase(TidalPyClass):
             # Change the orbital distance of the tidal host.
             if self.world_signature_to_index(world_signature, return_tidal_host=True) != 0:
                 log.warning('A tidal world is setting the stellar distance for the tidal host.')
-            self.set_semi_major_axis(world_signature, distance, set_stellar_orbit=True)
+            # This is the heliocentric orbit of the tidal host. No tidal orbit has changed so, as is done when the host's
+            #    orbit is first loaded from its configuration, the tidal worlds are not told that theirs did.
+            self.set_state(
+                self.tidal_host, semi_major_axis=distance,
+                call_orbit_change=False, set_stellar_orbit=True
+                )
 
     def set_stellar_eccentricity(self, world_signature: WorldSignatureType, eccentricity: 'FloatArray'):
         """ Set the orbital eccentricity between a world of interest and the star (used for insolation calculations)
@@ -1100,7 +1105,10 @@ class OrbitBase(TidalPyClass):
             # Change the orbital distance of the tidal host.
             if self.world_signature_to_index(world_signature, return_tidal_host=True) != 0:
                 log.warning('A tidal world is setting the stellar eccentricity for the tidal host.')
-            self.set_eccentricity(world_signature, eccentricity, set_stellar_orbit=True)
+            self.set_state(
+                self.tidal_host, eccentricity=eccentricity,
+                call_orbit_change=False, set_stellar_orbit=True
+                )
 
     # # Tidal World Getters
     def get_eccentricity(self, world_signature: WorldSignatureType, for_stellar_orbit: bool = False) -> 'FloatArray':
